@@ -33,8 +33,30 @@ Clauses of the design section (DESIGN.md, C13) and where they are decided:
  5. localization: loc.range_report.K for every anchor count K = 0..5 that fits a CRTP packet (complete), any ids (repeated id: the
     last report wins) and any binary32 bits; loc.range_report.bad_length; loc.lh_angle_stream (every payload of 21 bytes, using
     fp16_to_float through its contract) and loc.lh_angle_stream.bad_length.
+
+Extension round (second half of the file): histories, second objects, defaults, any magnitude.
+ 2'. quat.decompress.magnitudes.B: EVERY 32-bit word with index B whose three 9-bit magnitudes describe a unit quaternion (symbolic
+     sign bits and magnitudes; the field-extraction facts are proved first and then handed to the non-linear queries as lemmas -
+     this replaces the "symbolic 32-bit word: unknown" item above); quat.decompress.twice (each call returns its own array);
+     quat.roundtrip.sampled: BOUNDED ONLY, the real binary64 numpy code on seeded boundary / random quaternions (the R-mode
+     contracts are not replayed natively when they are proved; this one runs natively only); thorough tier: the lattice {-2..2}**4
+     and 240 more random directions.  Still NOT covered symbolically: a fully symbolic direction for compress_quaternion.
+ 3'. traj.encode_*.far and traj.start.pack.overflow.x/y/z/yaw (EVERY float, any magnitude: beyond the 16-bit range stays beyond / raises, one
+     field at a time), traj.segment.pack.twice (second use of a segment), traj.segment.pack.shapes (all 256 shapes, concrete points),
+     traj.write_data.compressed.* (whole trajectory through TrajectoryMemory.write_data / the alias poly4Ds, symbolic),
+     traj.write_data.history (second upload, second object, after write_done / write_failed / disconnect), traj.write_data_sync;
+     thorough tier: 13 more symbolic shapes (every pair of axes with every pair of lengths), two more end-to-end decodes.
+ 4'. led.write_data.history / led.timings.history (write, acknowledge or disconnect, change, write again; second object),
+     led.write_data.defaults / led.timings.defaults (what an omitted intensity / leds / fade / rotate stands for),
+     led.timings.write_data.3 (4, 5 thorough), led.write_data.rgb (all channels symbolic at once, thorough), every other ring position
+     symbolic (thorough).  FINDING, kept under thorough_only: led.write_data.R.at-3.via-set - LED.set(r, g, b, intensity=0) ignores the 0.
+ 5'. loc.history.then-range / then-angles (second packet on one object after any kind of first packet: own content, fresh containers,
+     earlier delivery unaltered), loc.*.bad_length.all (every wrong length that fits a CRTP packet).
+ Not under contract on purpose (no numeric content): LEDDriverMemory.new_data (logs only), LEDDriverMemory.update (read request of the
+ memory protocol, C11 / C14).
 """
 import math
+from struct import pack as struct_pack      # (only on concrete numbers: _concrete_traj)
 
 from pyvc.api import contract
 
@@ -196,11 +218,11 @@ def _type_byte(lens):
     return TYPE_CODE[lens[0]] | TYPE_CODE[lens[1]] << 2 | TYPE_CODE[lens[2]] << 4 | TYPE_CODE[lens[3]] << 6
 
 
-def _segment_pack_direct(lens):
+def _segment_pack_direct(lens, **more):
     @contract('C13', 'traj.segment.pack.decoded.%d_%d_%d_%d' % lens, SEG_FUNCS,
               clause=TRJ_CLAUSE + ' (segment with %d/%d/%d/%d control points for x/y/z/yaw, end to end: the bytes decode, under the '
                      'firmware layout <type byte, duration ms, control points as little-endian int16>, to values less than one unit '
-                     'from the caller\'s)' % lens, bounded=BOUND, ob_timeout_ms=90000)
+                     'from the caller\'s)' % lens, bounded=BOUND, ob_timeout_ms=90000, **more)
     def k(c):
         seg, scaled = _segment_inputs(c, lens)
         c.call((seg, 'pack'))
@@ -219,12 +241,14 @@ def _segment_pack_direct(lens):
     return k
 
 
-def _segment_pack_layout(lens):
+def _segment_pack_layout(lens, **more):
     @contract('C13', 'traj.segment.pack.layout.%d_%d_%d_%d' % lens, SEG_FUNCS,
               clause=TRJ_CLAUSE + ' (segment with %d/%d/%d/%d control points for x/y/z/yaw, compositional: the packet is the type byte, '
                      'the duration in ms and then exactly the values of _encode_spatial / _encode_yaw (error < 1 unit: contracts '
                      'traj.encode_*.error) as little-endian int16 in the order x, y, z, yaw; struct.error iff one does not fit)' % lens,
-              bounded=BOUND + '; element length combinations %s: every axis with every length' % (COMBOS,), ob_timeout_ms=90000)
+              bounded=BOUND + '; this combination of element lengths (quick tier: %s, every axis with every length; thorough tier: 13 more, '
+                              'every pair of axes with every pair of lengths; all 256 with concrete points: traj.segment.pack.shapes)' % (COMBOS,),
+              ob_timeout_ms=90000, **more)
     def k(c):
         seg, scaled = _segment_inputs(c, lens)
         c.call((seg, 'pack'))
@@ -266,11 +290,14 @@ def _led_written(c, mem):
     return True
 
 
-def _led_channel(ch, relational):
+def _led_channel(ch, relational, at=None, via_set=False, **more):
     pos, shift, top = CHANNELS[ch]
     where = {'R': (0,), 'G': (5,), 'B': (11,)}[ch] if not relational else (0, 11)
+    if at is not None:          # (extension round) the same contract at other positions of the ring
+        where = at
+    suffix = ('.monotone' if relational else '') + ('.at-' + '-'.join(map(str, at)) if at is not None else '') + ('.via-set' if via_set else '')
 
-    @contract('C13', 'led.write_data.%s%s' % (ch, '.monotone' if relational else ''), LED_FUNCS,
+    @contract('C13', 'led.write_data.%s%s' % (ch, suffix), LED_FUNCS,
               clause=LED_CLAUSE + (' (channel %s: all 256 levels and all intensities 0..100 on LED%s %s of the ring; big-endian '
                                    'RRRRRGGG GGGBBBBB word per LED; %s; the other channels and LEDs are black and stay 0)'
                                    % (ch, 's' if relational else '', ' and '.join(map(str, where)),
@@ -278,7 +305,7 @@ def _led_channel(ch, relational):
                                       'black is 0, white at intensity 100 is full scale, the nearest level at intensity 100')),
               bounded='LED(s) %s of 12 carry symbolic values, one colour channel per contract (the channels occupy disjoint bit '
                       'fields; every position with all channels: led.write_data.palette)' % (where,), max_paths=50,
-              ob_timeout_ms=120000, branch_timeout_ms=20000)
+              ob_timeout_ms=120000, branch_timeout_ms=20000, **more)
     def k(c):
         if c.backend == 'sym':
             c.I.cfg['int_float_small_by_solver'] = True
@@ -290,6 +317,10 @@ def _led_channel(ch, relational):
             led = c.snapshot('led' + tag, 'mem.leds[%d]' % i)
             rgb = [0, 0, 0]
             rgb[pos] = c.int('x' + tag, 0, 255)
+            if via_set:         # the colour and the intensity "in one call", as LED.set documents it
+                c.call((led, 'set'), *(rgb + [c.int('it' + tag, 0, 100)]))
+                c.ensure('set-no-exception', 'raised is None')
+                continue
             c.call((led, 'set'), *rgb)
             c.set(led, 'intensity', c.int('it' + tag, 0, 100))
         c.reset_trace()
@@ -583,7 +614,7 @@ QUAT_SETS = {'signs_zeros_ties': GRID[:40], 'signs_zeros_ties_2': GRID[40:], 'ge
              'random_1': _dirs(131, 45, 100), 'random_2': _dirs(1313, 45, 1000)}
 
 
-def _quat_grid(name, dirs):
+def _quat_grid(name, dirs, **more):
     @contract('C13', 'quat.compress.' + name, [ENC + ':compress_quaternion', ENC + ':decompress_quaternion'],
               clause='compressing a non-zero quaternion q = k * d (any scale k: unnormalised input; negated inputs; ties for the largest '
                      'component) gives exactly the 32-bit word of the firmware layout (quatcompress.h): index of the first component of '
@@ -592,7 +623,7 @@ def _quat_grid(name, dirs):
                      'common sign) with every component within two quantisation steps',
               bounded='%d directions d (%s): components in {-1, 0, 1} (all 80 sign / zero / tie patterns), hand-picked and seeded random '
                       'integer directions; the scale k is symbolic in [0.001, 1000].  Fully symbolic directions: see the module docstring'
-                      % (len(dirs), name), float_mode='R', max_paths=400)
+                      % (len(dirs), name), float_mode='R', max_paths=400, **more)
     def k(c):
         c.float('k')
         c.require('0.001 <= k <= 1000')
@@ -651,3 +682,824 @@ def quat_decompress(c):
                  'abs(result[%d] * 511 * SQRT2 - (%d)) <= TOL' % (i, -mags[pos] if negs[pos] else mags[pos]))
     c.ensure('largest-component-completes-the-unit-quaternion',
              'result[%d] >= 0 and abs(result[0] ** 2 + result[1] ** 2 + result[2] ** 2 + result[3] ** 2 - 1) <= TOL' % big)
+
+
+# ===================================================================================================== extension round
+# Histories (several real calls on one real object), second objects, error exits and boundary values.
+
+# ------------------------------------------------------------------------- localization: a decoder without memory
+FIRST_PACKETS = {                 # name -> (type byte, payload length, exception the first call ends with)
+    'range-1-anchor': (0, 5, None), 'range-3-anchors': (0, 15, None), 'range-bad-length': (0, 7, None),
+    'angles': (10, 21, None), 'angles-bad-length': (10, 20, 'struct.error'), 'persist-ack': (11, 1, None), 'other-type': (5, 4, None),
+}
+
+
+def _loc_history(second):
+    @contract('C13', 'loc.history.then-%s' % second, LOC_FUNCS + [LOC + ':Localization._decode_lh_angle'],
+              clause='received range reports and lighthouse angle-stream packets decode to exactly the values the device encoded - every '
+                     'packet by itself: a %s packet received by a Localization object that has already received (and decoded, rejected or '
+                     'failed on) another packet decodes to exactly its own content, in fresh containers, and what was delivered for the '
+                     'earlier packet is not altered by it' % ('two-anchor range report' if second == 'range' else 'lighthouse angle-stream'),
+              bounded='histories of two packets; the first one is one of %s' % sorted(FIRST_PACKETS), max_paths=400)
+    def k(c):
+        _fp16_by_contract(c)
+        first = c.choice('first', sorted(FIRST_PACKETS))
+        ptype, n, exc = FIRST_PACKETS[first]
+        c.bytes('payload0', n)
+        c.let('T0', ptype)
+        loc, pk0 = _localization(c, "pack('<B', T0) + payload0")
+        c.call((loc, '_incoming'), pk0)
+        c.ensure('first-packet-ends-as-expected', 'raised == %r' % exc)
+        n0 = c.concretize("len(sent('cb'))")
+        c.ensure('first-packet-delivered-at-most-once', "len(sent('cb')) <= 1")
+        if n0 == 1:
+            c.snapshot('lp0', "sent('cb')[0][1][0]")
+            if first.startswith('range-') and n % 5 == 0:
+                c.snapshot('old', 'tuple(lp0.data.items())')
+            elif first == 'angles':
+                c.snapshot('old', "(lp0.data['basestation'], tuple(lp0.data['x']), tuple(lp0.data['y']))")
+        c.bytes('payload', 10 if second == 'range' else 21)
+        pk = c.new('cflib.crtp.crtpstack:CRTPPacket', LOC_HEADER, c.snapshot('pkdata1', "pack('<B', %d) + payload" % (0 if second == 'range' else 10)))
+        c.call((loc, '_incoming'), pk)
+        c.ensure('no-exception', 'raised is None')
+        c.ensure('delivered-once-more', "len(sent('cb')) == %d" % (n0 + 1))
+        if c.get('raised') is not None or c.concretize("len(sent('cb'))") != n0 + 1:
+            return
+        c.snapshot('lp', "sent('cb')[%d][1][0]" % n0)
+        c.ensure('type-and-raw-data', "typename(lp) == 'localizationPacket' and lp.type == %d and bytes(lp.raw_data) == bytes(payload)" % (0 if second == 'range' else 10))
+        c.snapshot('d', 'lp.data')
+        if second == 'range':
+            c.snapshot('dist', "tuple(unpack('<f', payload[5 * i + 1:5 * i + 5])[0] for i in range(2))")
+            nkeys = c.concretize('len(d)')
+            c.snapshot('items', 'tuple(d.items())')
+            if nkeys == 1:
+                c.ensure('only-its-own-anchors', "typename(d) == 'dict' and payload[0] == payload[5] and items[0][0] == payload[5] and same_float(items[0][1], dist[1])")
+            else:
+                c.ensure('only-its-own-anchors', "typename(d) == 'dict' and len(d) == 2 and payload[0] != payload[5] and items[0][0] == payload[0] and "
+                                                 "same_float(items[0][1], dist[0]) and items[1][0] == payload[5] and same_float(items[1][1], dist[1])")
+        else:
+            c.ensure('shape', "typename(d) == 'dict' and len(d) == 3 and typename(d['x']) == 'list' and typename(d['y']) == 'list' and "
+                              "len(d['x']) == 4 and len(d['y']) == 4 and d['basestation'] == payload[0]")
+            for ax, o in (('x', 1), ('y', 11)):
+                c.snapshot('base_' + ax, "unpack('<f', payload[%d:%d])[0]" % (o, o + 4))
+                c.ensure('%s-sensor-0-is-the-base-angle' % ax, "same_float(d['%s'][0], base_%s)" % (ax, ax))
+                for s in range(3):
+                    c.snapshot('off_%s%d' % (ax, s), "unpack('<H', payload[%d:%d])[0]" % (o + 4 + 2 * s, o + 6 + 2 * s))
+                    c.ensure('%s-sensor-%d-is-base-minus-half-float-offset' % (ax, s + 1),
+                             "same_float(d['%s'][%d], base_%s - fp16_value(off_%s%d))" % (ax, s + 1, ax, ax, s))
+        if n0 == 1:
+            c.ensure('fresh-containers', "not is_same(lp0.data, d)" + (
+                " and not is_same(lp0.data['x'], d['x']) and not is_same(lp0.data['y'], d['y']) and not is_same(d['x'], d['y'])"
+                if first == 'angles' and second == 'angles' else ''))
+            if first.startswith('range-') and n % 5 == 0:
+                c.ensure('earlier-delivery-unaltered', 'len(lp0.data) == len(old) and all(same_float(a[1], b[1]) and a[0] == b[0] for a, b in zip(tuple(lp0.data.items()), old))')
+            elif first == 'angles':
+                c.ensure('earlier-delivery-unaltered', "lp0.data['basestation'] == old[0] and all(same_float(a, b) for a, b in zip(tuple(lp0.data['x']) + tuple(lp0.data['y']), old[1] + old[2]))")
+    return k
+
+
+_loc_history('range')
+_loc_history('angles')
+
+
+# ------------------------------------------------------------------------- LED ring: the documented setter, histories, second objects
+# FINDING (unchanged tree; reported, see the report of the extension round): LED.set(r, g, b, intensity) ignores intensity == 0
+# (`if intensity:`), so "all intensities" through the documented one-call setter is not monotone: set(255, 255, 255, 0) on a
+# fresh LED is written as full-scale white (intensity stays 100) while set(255, 255, 255, 1) is written as 0.  The contract
+# states the property through that setter; it is kept under thorough_only so that the quick tier stays green.
+_led_channel('R', False, at=(3,), via_set=True, thorough_only=True)
+
+# (e) thorough tier: the symbolic LED at every other position of the ring (the loop body is the same for every LED; a change that
+# treats positions differently is seen here symbolically and in led.write_data.palette concretely)
+for _p in range(12):
+    if _p not in (0, 5, 11):
+        _led_channel('RGB'[_p % 3], False, at=(_p,), thorough_only=True)
+_led_channel('G', True, at=(4, 7), thorough_only=True)
+
+
+@contract('C13', 'led.write_data.rgb', LED_FUNCS,
+          clause=LED_CLAUSE + ' (all three channels of one LED symbolic at once, any intensity: the word is exactly the three fields '
+                              'R << 11 | G << 5 | B, each field what its channel alone gives - no carry or crosstalk between the fields; '
+                              'black -> 0, white at intensity 100 -> 0xffff)',
+          bounded='LED 7 of 12 carries the symbolic colour; the other positions: led.write_data.palette', max_paths=50,
+          ob_timeout_ms=120000, branch_timeout_ms=20000, thorough_only=True)
+def led_rgb(c):
+    if c.backend == 'sym':
+        c.I.cfg['int_float_small_by_solver'] = True
+    mh = c.ext('mh')
+    mem = c.new(LED + ':LEDDriverMemory', 4, 0x10, 24, mh)
+    c.let('mem', mem)
+    led = c.snapshot('led', 'mem.leds[7]')
+    c.call((led, 'set'), c.int('r', 0, 255), c.int('g', 0, 255), c.int('b', 0, 255))
+    c.set(led, 'intensity', c.int('it', 0, 100))
+    c.reset_trace()
+    c.call((mem, 'write_data'), c.ext('cb'))
+    if not _led_written(c, mem):
+        return
+    c.ensure('other-leds-black', 'all(data[2 * i] == 0 and data[2 * i + 1] == 0 for i in range(12) if i != 7)')
+    c.snapshot('word', 'data[14] * 256 + data[15]')
+    c.snapshot('R', 'word >> 11'), c.snapshot('G', '(word >> 5) & 63'), c.snapshot('B', 'word & 31')
+    # the full-scale level of each channel (nearest level), then scaled by intensity / 100 and rounded down
+    for X, x, top in (('R', 'r', 31), ('G', 'g', 63), ('B', 'b', 31)):
+        c.snapshot(X + 'full', '(2 * %s * %d + 255) // 510' % (x, top))
+        c.ensure('%s-field-is-its-channel-alone' % X, '%s * 100 <= %sfull * it < (%s + 1) * 100' % (X, X, X))
+    c.ensure('black-is-0', 'implies(r == 0 and g == 0 and b == 0, word == 0)')
+    c.ensure('white-at-full-intensity-is-full-scale', 'implies(r == 255 and g == 255 and b == 255 and it == 100, word == 65535)')
+
+
+PALETTE_A = [(255, 255, 255, 100), (0, 0, 0, 100), (255, 0, 0, 50), (0, 255, 0, 1), (0, 0, 255, 99), (255, 255, 0, 100),
+             (8, 4, 8, 100), (7, 3, 7, 100), (128, 128, 128, 100), (1, 1, 1, 100), (254, 254, 254, 100), (100, 150, 200, 37)]
+PALETTE_B = [(0, 0, 0, 100), (255, 255, 255, 100), (0, 0, 255, 100), (255, 0, 0, 100), (0, 255, 0, 100), (9, 9, 9, 100),
+             (0, 0, 0, 0), (255, 255, 255, 1), (255, 255, 255, 4), (17, 34, 51, 100), (200, 100, 50, 73), (5, 2, 5, 100)]
+
+
+def _rgb565(palette):
+    """the RGB565 image of the ring in exact integer arithmetic, independent of the code: nearest 5/6/5-bit level of each 8-bit
+    level, scaled by intensity / 100 and rounded down, big-endian RRRRRGGG GGGBBBBB"""
+    out = bytearray()
+    for r, g, b, it in palette:
+        R, G, B = ((2 * r * 31 + 255) // 510) * it // 100, ((2 * g * 63 + 255) // 510) * it // 100, ((2 * b * 31 + 255) // 510) * it // 100
+        out += bytes(((R << 3) | (G >> 3), ((G & 7) << 5) | B))
+    return bytes(out)
+
+
+@contract('C13', 'led.write_data.history', LED_FUNCS + [LED + ':LEDDriverMemory.write_done', LED + ':LEDDriverMemory.disconnect'],
+          clause=LED_CLAUSE + ' - on every use of the object: a ring that is written, acknowledged (write_done) or disconnected, recoloured and written '
+                              'again transmits exactly the RGB565 image of its current colours each time (nothing cached, nothing left over), '
+                              'and a second LEDDriverMemory object created meanwhile is black and independent of the first',
+          bounded='two concrete 12-LED palettes (saturated, near the rounding boundaries of the 5/6-bit levels, low intensities); two '
+                  'writes of one object and one write of a second object')
+def led_history(c):
+    mh = c.ext('mh')
+    mem = c.new(LED + ':LEDDriverMemory', 4, 0x10, 24, mh)
+    c.let('mem', mem)
+    c.let('A', _rgb565(PALETTE_A)), c.let('B', _rgb565(PALETTE_B)), c.let('BLACK', bytes(24))
+
+    def paint(m, palette):
+        c.let('leds', c.getfield(m, 'leds'))
+        for i, (r, g, b, it) in enumerate(palette):
+            led = c.snapshot('led', 'leds[%d]' % i)
+            c.call((led, 'set'), r, g, b)
+            c.set(led, 'intensity', it)
+
+    paint(mem, PALETTE_A)
+    c.reset_trace()
+    c.call((mem, 'write_data'), c.ext('cb'))
+    if not _led_written(c, mem):
+        return
+    c.ensure('first-image', 'bytes(data) == A')
+    if c.choice('outcome', ['write_done', 'disconnect']) == 'write_done':
+        c.call((mem, 'write_done'), mem, 0)
+    else:
+        c.call((mem, 'disconnect'))
+    c.ensure('acknowledged', "raised is None and len(sent('mh.write')) == 1")
+    other = c.new(LED + ':LEDDriverMemory', 5, 0x10, 24, mh)
+    c.let('other', other)
+    c.ensure('second-object-has-its-own-12-leds', 'len(other.leds) == 12 and len(mem.leds) == 12 and '
+             'all(not is_same(a, b) for a in other.leds for b in mem.leds)')
+    paint(mem, PALETTE_B)
+    c.reset_trace()
+    c.call((mem, 'write_data'), c.ext('cb2'))
+    if not _led_written(c, mem):
+        return
+    c.ensure('second-image-is-the-current-colours', 'bytes(data) == B')
+    c.reset_trace()
+    c.call((other, 'write_data'), c.ext('cb3'))
+    c.let('mem', other)
+    if not _led_written(c, other):
+        return
+    c.ensure('second-object-is-black', 'bytes(data) == BLACK')
+
+
+# ------------------------------------------------------------------------- LED timings: longer sequences, histories, second objects
+def _timing_zero(i):        # entry i would be transmitted as four zero bytes (the nearest RGB565 level of each channel is 0)
+    return ('(t%d == 0 and leds%d == 0 and not fade%d and rot%d == 0 and 2 * r%d * 31 <= 255 and 2 * g%d * 63 <= 255 '
+            'and 2 * b%d * 31 <= 255)' % ((i,) * 7))
+
+
+def _timing_slot(s, i):     # slot s of the image holds entry i: time, RGB565 (nearest level per channel, 0 -> 0, 255 -> full scale), flags
+    o = 4 * s
+    wd = '(data[%d] * 256 + data[%d])' % (o + 1, o + 2)
+    R, G, B = '(%s >> 11)' % wd, '((%s >> 5) & 63)' % wd, '(%s & 31)' % wd
+    return ('(data[%d] == t%d and data[%d] == leds%d + 16 * fade%d + 32 * rot%d and 2 * abs(%s * 255 - r%d * 31) <= 255 and '
+            '2 * abs(%s * 255 - g%d * 63) <= 255 and 2 * abs(%s * 255 - b%d * 31) <= 255 and '
+            'implies(r%d == 0, %s == 0) and implies(g%d == 0, %s == 0) and implies(b%d == 0, %s == 0) and '
+            'implies(r%d == 255, %s == 31) and implies(g%d == 255, %s == 63) and implies(b%d == 255, %s == 31))' % (
+                o, i, o + 3, i, i, i, R, i, G, i, B, i, i, R, i, G, i, B, i, R, i, G, i, B))
+
+
+def _timing_add(c, mem, i):
+    rgb = c.dict([('r', c.int('r%d' % i, 0, 255)), ('g', c.int('g%d' % i, 0, 255)), ('b', c.int('b%d' % i, 0, 255))])
+    c.call((mem, 'add'), c.int('t%d' % i, 0, 255), rgb, c.int('leds%d' % i, 0, 15), c.bool('fade%d' % i), c.int('rot%d' % i, 0, 7))
+
+
+def _timing_written(c, mem):
+    c.ensure('no-exception', 'raised is None')
+    if c.get('raised') is not None:
+        return False
+    c.ensure('exactly-one-write', "len(sent('mh.write')) == 1")
+    c.snapshot('w', "sent('mh.write')[0]")
+    c.ensure('write-of-this-memory-at-address-0-flushing-the-queue',
+             "len(w[1]) == 3 and is_same(w[1][0], mem) and w[1][1] == 0 and len(w[2]) == 1 and w[2]['flush_queue'] is True")
+    c.snapshot('data', 'w[1][2]')
+    return True
+
+
+def _timing_image(c, tag, entries):
+    """the image in `data` is exactly: the given entries (indices of the inputs) that are not all-zero, in order, then the terminator.
+    The contract has already forked on which entries are all-zero; `entries` are the ones that are not."""
+    c.ensure(tag + 'length', "typename(data) == 'bytearray' and len(data) == %d" % (4 * len(entries) + 4))
+    if c.concretize('len(data)') != 4 * len(entries) + 4:
+        return
+    for s, i in enumerate(entries):
+        c.ensure(tag + 'slot-%d-is-entry-%d' % (s, i), _timing_slot(s, i))
+    c.ensure(tag + 'terminator', 'bytes(data[%d:]) == bytes(4)' % (4 * len(entries)))
+    for ch, sh, m in (('r', 11, 31), ('g', 5, 63), ('b', 0, 31)):        # monotone: compared between neighbouring kept entries
+        for s in range(len(entries) - 1):
+            a, b = entries[s], entries[s + 1]
+            Xa = '(((data[%d] * 256 + data[%d]) >> %d) & %d)' % (4 * s + 1, 4 * s + 2, sh, m)
+            Xb = '(((data[%d] * 256 + data[%d]) >> %d) & %d)' % (4 * s + 5, 4 * s + 6, sh, m)
+            c.ensure(tag + '%s-monotone-entries-%d-%d' % (ch, a, b), 'implies(%s%d <= %s%d, %s <= %s) and implies(%s%d >= %s%d, %s >= %s)' % (
+                ch, a, ch, b, Xa, Xb, ch, a, ch, b, Xa, Xb))
+
+
+def _led_timings_long(n, max_paths=600, **more):
+    @contract('C13', 'led.timings.write_data.%d' % n, [LEDT + ':LEDTimingsDriverMemory.__init__', LEDT + ':LEDTimingsDriverMemory.add',
+                                                       LEDT + ':LEDTimingsDriverMemory.write_data'],
+              clause=LED_CLAUSE + ' (LED timing sequence of %d entries: the image is, in order, one record <time, RGB565 high, RGB565 low, '
+                                  'leds | fade << 4 | rotate << 5> per entry that is not all-zero - all 256 levels per channel, monotone between '
+                                  'entries - and then four zero bytes)' % n,
+              bounded='sequences of %d entries (0, 1, 2: led.timings.write_data.0/1/2)' % n, max_paths=max_paths, **more)
+    def k(c):
+        mh = c.ext('mh')
+        mem = c.new(LEDT + ':LEDTimingsDriverMemory', 5, 0x17, 2000, mh)
+        c.let('mem', mem)
+        kept = []
+        for i in range(n):
+            _timing_add(c, mem, i)
+            if not c.concretize(c.snapshot('z%d' % i, _timing_zero(i))):
+                kept.append(i)
+        c.reset_trace()
+        c.call((mem, 'write_data'), c.ext('cb'))
+        if _timing_written(c, mem):
+            _timing_image(c, '', kept)
+    return k
+
+
+_led_timings_long(3)
+_led_timings_long(4, thorough_only=True)
+_led_timings_long(5, thorough_only=True, max_paths=1100)
+
+
+@contract('C13', 'led.timings.history', [LEDT + ':LEDTimingsDriverMemory.__init__', LEDT + ':LEDTimingsDriverMemory.add',
+                                         LEDT + ':LEDTimingsDriverMemory.write_data', LEDT + ':LEDTimingsDriverMemory.write_done',
+                                         LEDT + ':LEDTimingsDriverMemory.disconnect'],
+          clause=LED_CLAUSE + ' - on every use of the object: a timing memory that is written, acknowledged (write_done) or disconnected, extended by another '
+                              'entry and written again (without a new callback) transmits the image of its current sequence each time, and a '
+                              'second LEDTimingsDriverMemory object created meanwhile starts empty (terminator only)',
+          bounded='one entry, then a second one; two writes of one object and one write of a second object', max_paths=200)
+def led_timings_history(c):
+    mh = c.ext('mh')
+    mem = c.new(LEDT + ':LEDTimingsDriverMemory', 5, 0x17, 2000, mh)
+    first = mem
+    c.let('mem', mem)
+    kept = []
+    _timing_add(c, mem, 0)
+    if not c.concretize(c.snapshot('z0', _timing_zero(0))):
+        kept.append(0)
+    c.reset_trace()
+    c.call((mem, 'write_data'), c.ext('cb'))
+    if not _timing_written(c, mem):
+        return
+    _timing_image(c, 'first-write-', kept)
+    if c.choice('outcome', ['write_done', 'disconnect']) == 'write_done':
+        c.call((mem, 'write_done'), mem, 0)
+    else:
+        c.call((mem, 'disconnect'))
+    c.ensure('acknowledged', "raised is None and len(sent('mh.write')) == 1")
+    other = c.new(LEDT + ':LEDTimingsDriverMemory', 6, 0x17, 2000, mh)
+    _timing_add(c, first, 1)
+    if not c.concretize(c.snapshot('z1', _timing_zero(1))):
+        kept.append(1)
+    c.reset_trace()
+    c.call((first, 'write_data'), None)
+    if not _timing_written(c, first):
+        return
+    _timing_image(c, 'second-write-', kept)
+    c.let('mem', other)
+    c.reset_trace()
+    c.call((other, 'write_data'), c.ext('cb2'))
+    if _timing_written(c, other):
+        _timing_image(c, 'second-object-', [])
+
+
+# ------------------------------------------------------------------------- compressed trajectories: any magnitude, second use, upload
+def _traj_far(name, meth, scaled, unit):
+    @contract('C13', 'traj.%s.far' % name, [TRJ + ':_CompressedBase.' + meth],
+              clause=TRJ_CLAUSE + ' (%s, EVERY finite float of any magnitude: a scaled value at or beyond the ends of the signed 16-bit '
+                                  'range is encoded as an integer at or beyond the same end - so that packing it raises, see '
+                                  'traj.segment.pack_element.N / traj.start.pack.overflow.* - and a value inside is encoded inside)' % unit,
+              ob_timeout_ms=300000)
+    def k(c):
+        self = c.new(TRJ + ':CompressedStart', 0.0, 0.0, 0.0, 0.0)
+        c.float('x')
+        c.let('DEG', DEG)
+        c.require('not is_nan(%s) and not is_inf(%s)' % (scaled, scaled))
+        c.call((self, meth), c.get('x'))
+        c.ensure('no-exception', "raised is None and typename(result) == 'int'")
+        c.ensure('beyond-the-upper-end-stays-beyond', 'iff(%s >= 32768, result >= 32768)' % scaled)
+        c.ensure('beyond-the-lower-end-stays-beyond', 'iff(%s <= -32769, result <= -32769)' % scaled)
+    return k
+
+
+_traj_far('encode_spatial', '_encode_spatial', 'x * 1000', 'millimetres')
+_traj_far('encode_yaw', '_encode_yaw', 'x * DEG * 10', 'tenths of a degree')
+
+
+def _traj_start_overflow(which):
+    names = ['x', 'y', 'z', 'yaw']
+
+    @contract('C13', 'traj.start.pack.overflow.' + names[which],
+              [TRJ + ':CompressedStart.__init__', TRJ + ':CompressedStart.pack', TRJ + ':_CompressedBase._encode_spatial',
+               TRJ + ':_CompressedBase._encode_yaw'],
+              clause=TRJ_CLAUSE + ' (start point, field %s EVERY float of any magnitude incl. NaN and infinities, the others in '
+                                  'range: bytes are returned iff the scaled value lies strictly between -32769 and 32768; otherwise an '
+                                  'exception - struct.error when it is finite - never a wrapped or clamped field)' % names[which],
+              bounded='one of the four fields is an arbitrary float (one contract per field), the three others are concrete in-range '
+                      'values (all four symbolic within |value| <= 1e6: traj.start.pack)', ob_timeout_ms=300000)
+    def traj_start_overflow(c):
+        c.float('v')
+        c.let('DEG', DEG)
+        vals = [1.5, -2.25, 0.001, -3.0]
+        vals[which] = c.get('v')
+        scaled = 'v * 1000' if which < 3 else 'v * DEG * 10'
+        self = c.new(TRJ + ':CompressedStart', *vals)
+        c.call((self, 'pack'))
+        c.ensure('raises-iff-the-value-does-not-fit-16-bits', 'iff(raised is None, %s)' % (IN16 % scaled))
+        c.ensure('declared-errors-only', "raised in (None, 'struct.error', 'ValueError', 'OverflowError')")
+        c.ensure('finite-overflow-raises-struct-error', "implies(raised is not None and not is_nan(%s) and not is_inf(%s), raised == 'struct.error')" % (scaled, scaled))
+        if c.get('raised') is None:
+            c.ensure('eight-bytes', "typename(result) == 'bytearray' and len(result) == 8")
+            c.snapshot('f', "unpack('<hhhh', bytes(result))")
+            c.ensure('the-other-fields-are-unaffected', 'all(f[i] == (1500, -2250, 1, -1718)[i] for i in range(4) if i != %d)' % which)
+    return traj_start_overflow
+
+
+for _w in range(4):
+    _traj_start_overflow(_w)
+
+
+@contract('C13', 'traj.segment.pack.twice', SEG_FUNCS,
+          clause=TRJ_CLAUSE + ' - on every use of the object: packing the same segment a second time gives the same bytes as the first '
+                              'time (the encoded control points are not consumed or altered by packing)',
+          bounded=BOUND + '; a segment with 1/1/1/1 control points (every axis non-empty)', ob_timeout_ms=90000)
+def traj_segment_twice(c):
+    lens = (1, 1, 1, 1)
+    seg, scaled = _segment_inputs(c, lens)
+    c.require(' and '.join(['(0 <= int(duration * 1000.0) <= 65535)'] + ['(-32768 <= int(%s) <= 32767)' % e for _, e in scaled]))
+    c.call((seg, 'pack'))
+    c.ensure('first-no-exception', 'raised is None')
+    c.snapshot('first', 'bytes(result)')
+    c.call((seg, 'pack'))
+    c.ensure('second-no-exception', 'raised is None')
+    if c.get('raised') is None:
+        c.ensure('second-whole-packet', "bytes(result) == pack('<BH%s', %d, int(duration * 1000.0)%s)" % (
+            'h' * sum(lens), _type_byte(lens), ''.join(', int(%s)' % e for _, e in scaled)))
+        c.ensure('same-bytes-both-times', 'bytes(result) == first')
+
+
+TMEM_FUNCS = [TRJ + ':TrajectoryMemory.__init__', TRJ + ':TrajectoryMemory.write_data', TRJ + ':TrajectoryMemory.poly4Ds',
+              TRJ + ':CompressedStart.pack'] + SEG_FUNCS
+
+
+def _traj_upload(name, seglens, **more):
+    @contract('C13', 'traj.write_data.compressed.' + name, TMEM_FUNCS,
+              clause=TRJ_CLAUSE + ' (a whole compressed trajectory - start point and %d segment(s) with %s control points - handed to the '
+                                  'trajectory memory through `trajectory` or its deprecated alias `poly4Ds`: exactly one write, at the '
+                                  'requested address, of the start record followed by the segment records in order, every field the value '
+                                  'of _encode_spatial / _encode_yaw (error < 1 unit: traj.encode_*.error); the byte count is returned; if any '
+                                  'value does not fit 16 bits struct.error is raised and nothing is written)' % (len(seglens), seglens),
+              bounded=BOUND + '; this shape of trajectory', ob_timeout_ms=90000, max_paths=300, **more)
+    def k(c):
+        c.let('DEG', DEG)
+        mh = c.ext('mh')
+        mem = c.new(TRJ + ':TrajectoryMemory', 3, 0x12, 4096, mh)
+        c.let('mem', mem)
+        fields = []         # (struct code, spec expression of the encoded value)
+        inputs = []
+        for n in ('sx', 'sy', 'sz', 'syaw'):
+            c.float(n)
+            inputs.append((n, '%s * 1000' % n if n != 'syaw' else 'syaw * DEG * 10'))
+        elements = [c.new(TRJ + ':CompressedStart', *[c.get(n) for n in ('sx', 'sy', 'sz', 'syaw')])]
+        fields += [('h', 'int(%s)' % e) for _, e in inputs]
+        for s, lens in enumerate(seglens):
+            d = 'dur%d' % s
+            c.float(d)
+            inputs.append((d, d + ' * 1000.0'))
+            fields += [('B', str(_type_byte(lens))), ('H', 'int(%s * 1000.0)' % d)]
+            els = []
+            for ax, n in zip(('x', 'y', 'z', 'yaw'), lens):
+                nm = 'e%d%s' % (s, ax)
+                els.append(c.floats(nm, n))
+                for i in range(n):
+                    e = '%s[%d] * 1000' % (nm, i) if ax != 'yaw' else '%s[%d] * DEG * 10' % (nm, i)
+                    inputs.append(('%s[%d]' % (nm, i), e))
+                    fields.append(('h', 'int(%s)' % e))
+            elements.append(c.new(TRJ + ':CompressedSegment', c.get(d), *els))
+        _bounded_inputs(c, [a for a, _ in inputs], [e for _, e in inputs])
+        c.let('elements', elements)
+        via = c.choice('via', ['trajectory', 'poly4Ds'])
+        c.snapshot('_', 'setattr(mem, %r, elements)' % via)
+        c.ensure('both-names-give-the-elements-that-were-set', 'all(len(l) == %d and all(is_same(a, b) for a, b in zip(l, elements)) '
+                 'for l in (mem.trajectory, mem.poly4Ds))' % len(elements))
+        c.int('start', 0, 4095)
+        c.reset_trace()
+        if via == 'trajectory':
+            c.call((mem, 'write_data'), c.ext('done'), c.ext('failed'), c.get('start'))
+        else:
+            c.call((mem, 'write_data'), c.ext('done'), start_addr=c.get('start'))
+        fits = ['(%s <= %s <= %s)' % ({'h': -32768, 'H': 0}[code], e, {'h': 32767, 'H': 65535}[code]) for code, e in fields if code != 'B']
+        c.ensure('raises-iff-a-value-does-not-fit-16-bits', 'iff(raised is None, %s)' % ' and '.join(fits))
+        c.ensure('struct-error-only', "raised in (None, 'struct.error')")
+        if c.get('raised') is not None:
+            c.ensure('nothing-written-on-overflow', "len(sent('mh.write')) == 0")
+            return
+        c.ensure('exactly-one-write', "len(sent('mh.write')) == 1")
+        c.snapshot('w', "sent('mh.write')[0]")
+        c.ensure('write-of-this-memory-at-the-requested-address-flushing-the-queue',
+                 "len(w[1]) == 3 and is_same(w[1][0], mem) and w[1][1] == start and len(w[2]) == 1 and w[2]['flush_queue'] is True")
+        c.ensure('whole-image', "bytes(w[1][2]) == pack('<%s', %s)" % (''.join(code for code, _ in fields), ', '.join(e for _, e in fields)))
+        c.ensure('returns-the-byte-count', 'result == len(w[1][2]) and result == %d' % sum(1 if code == 'B' else 2 for code, _ in fields))
+    return k
+
+
+_traj_upload('start+1', [(1, 0, 3, 1)])
+_traj_upload('start+2', [(1, 1, 1, 1), (3, 7, 0, 1)], thorough_only=True)
+
+
+def _concrete_traj(c, points):
+    """a CompressedStart and CompressedSegments (real constructors) from concrete numbers, and the image the firmware format prescribes"""
+    x, y, z, yaw = points[0]
+    els = [c.new(TRJ + ':CompressedStart', x, y, z, yaw)]
+    img = struct_pack('<hhhh', int(x * 1000), int(y * 1000), int(z * 1000), int(math.degrees(yaw) * 10))
+    for dur, ex, ey, ez, eyaw in points[1:]:
+        els.append(c.new(TRJ + ':CompressedSegment', dur, list(ex), list(ey), list(ez), list(eyaw)))
+        img += struct_pack('<BH', _type_byte((len(ex), len(ey), len(ez), len(eyaw))), int(dur * 1000.0))
+        for el, scale in ((ex, 1000), (ey, 1000), (ez, 1000)):
+            img += b''.join(struct_pack('<h', int(v * scale)) for v in el)
+        img += b''.join(struct_pack('<h', int(math.degrees(v) * 10)) for v in eyaw)
+    return els, img
+
+
+TRAJ_A = [(0.5, -1.25, 1.0, 0.0), (2.0, [1.0], [-0.001], [32.767, -32.768, 0.0009], [3.14159]),
+          (0.25, [], [0.1, 0.2, 0.3, 0.4, 0.5, 0.6, 0.7], [], [-1.0, 1.0, 0.5])]
+TRAJ_B = [(-3.0, 2.0, 0.125, 1.5), (65.535, [0.75, -0.75, 0.5], [], [2.0], [])]
+
+
+@contract('C13', 'traj.write_data.history', TMEM_FUNCS + [TRJ + ':TrajectoryMemory.write_done', TRJ + ':TrajectoryMemory.write_failed',
+                                                          TRJ + ':TrajectoryMemory.disconnect'],
+          clause=TRJ_CLAUSE + ' - on every use of the object: a trajectory memory that uploads one compressed trajectory, is told the outcome '
+                              '(write_done, write_failed or a disconnect), is given another trajectory and uploads again, transmits exactly '
+                              'the image of its current trajectory each time (nothing accumulated or cached), and a second TrajectoryMemory '
+                              'created meanwhile is empty',
+          bounded='two concrete compressed trajectories (values at the ends of the 16-bit range, below one unit, negative); the three '
+                  'ways the first upload can end')
+def traj_history(c):
+    mh = c.ext('mh')
+    mem = c.new(TRJ + ':TrajectoryMemory', 3, 0x12, 4096, mh)
+    c.let('mem', mem)
+    els_a, img_a = _concrete_traj(c, TRAJ_A)
+    els_b, img_b = _concrete_traj(c, TRAJ_B)
+    c.let('A', img_a), c.let('B', img_b)
+    c.set(mem, 'trajectory', c.list(els_a))
+    c.reset_trace()
+    c.call((mem, 'write_data'), c.ext('done'), c.ext('failed'))
+    c.ensure('first-upload', "raised is None and result == len(A) and len(sent('mh.write')) == 1 and is_same(sent('mh.write')[0][1][0], mem) and "
+                             "sent('mh.write')[0][1][1] == 0 and bytes(sent('mh.write')[0][1][2]) == A")
+    outcome = c.choice('outcome', ['write_done', 'write_failed', 'disconnect'])
+    if outcome == 'disconnect':
+        c.call((mem, 'disconnect'))
+    else:
+        c.call((mem, outcome), mem, 0)
+    c.ensure('outcome-accepted', "raised is None and len(sent('mh.write')) == 1")
+    other = c.new(TRJ + ':TrajectoryMemory', 4, 0x12, 4096, mh)
+    c.let('other', other)
+    c.set(mem, 'trajectory', c.list(els_b))
+    c.reset_trace()
+    c.call((mem, 'write_data'), c.ext('done2'), start_addr=128)
+    c.ensure('second-upload-is-the-current-trajectory', "raised is None and result == len(B) and len(sent('mh.write')) == 1 and "
+             "is_same(sent('mh.write')[0][1][0], mem) and sent('mh.write')[0][1][1] == 128 and bytes(sent('mh.write')[0][1][2]) == B")
+    c.reset_trace()
+    c.call((other, 'write_data'), c.ext('done3'))
+    c.ensure('second-object-is-empty', "raised is None and result == 0 and len(sent('mh.write')) == 1 and is_same(sent('mh.write')[0][1][0], other) "
+                                       "and len(sent('mh.write')[0][1][2]) == 0")
+
+
+@contract('C13', 'traj.write_data_sync', TMEM_FUNCS + [TRJ + ':TrajectoryMemory.write_data_sync', TRJ + ':TrajectoryMemory.write_done',
+                                                       TRJ + ':TrajectoryMemory.write_failed', 'cflib.utils.callbacks:Syncer.__init__',
+                                                       'cflib.utils.callbacks:Syncer.success_cb', 'cflib.utils.callbacks:Syncer.failure_cb',
+                                                       'cflib.utils.callbacks:Syncer.wait'],
+          clause=TRJ_CLAUSE + ' (the blocking upload transmits the same image as write_data, at the requested address, and reports the '
+                              'outcome the memory subsystem signals: True after write_done, False after write_failed)',
+          bounded='one concrete compressed trajectory; the outcome is signalled from inside the write call (the earliest possible schedule)')
+def traj_write_sync(c):
+    outcome = c.choice('outcome', ['write_done', 'write_failed'])
+    holder = []
+
+    def write(_i, args, _k):
+        # the memory subsystem finishes (or fails) the write and tells the element, as Memory._mem_update / _mem_write_failed do
+        c.invoke((holder[0], outcome), holder[0], args[1])
+        return None
+    mh = c.ext('mh', returns={'write': write})
+    mem = c.new(TRJ + ':TrajectoryMemory', 3, 0x12, 4096, mh)
+    holder.append(mem)
+    c.let('mem', mem)
+    els_a, img_a = _concrete_traj(c, TRAJ_A)
+    c.let('A', img_a)
+    c.set(mem, 'trajectory', c.list(els_a))
+    c.int('start', 0, 4095)
+    c.reset_trace()
+    c.call((mem, 'write_data_sync'), c.get('start'))
+    c.ensure('no-exception', 'raised is None')
+    c.ensure('one-write-of-the-image-at-the-requested-address', "len(sent('mh.write')) == 1 and is_same(sent('mh.write')[0][1][0], mem) and "
+             "sent('mh.write')[0][1][1] == start and bytes(sent('mh.write')[0][1][2]) == A and sent('mh.write')[0][2] == {'flush_queue': True}")
+    c.ensure('reports-the-outcome', 'result is %s' % (outcome == 'write_done'))
+
+
+# (e) thorough tier: more shapes of segments.  The six COMBOS give every axis every length; the 16 rows of the orthogonal array
+# OA(16, 4, 4, 2) below give every PAIR of axes every pair of lengths (symbolic control points); every one of the 256 shapes is
+# packed with concrete control points in traj.segment.pack.shapes (quick tier).
+def _oa16():
+    mul = {(a, b): 0 for a in range(4) for b in range(4)}       # multiplication of GF(4) = {0, 1, w, w+1} coded 0..3
+    for a in range(1, 4):
+        for b in range(1, 4):
+            mul[(a, b)] = ((a - 1 + b - 1) % 3) + 1
+    lens = (0, 1, 3, 7)
+    return [(lens[a], lens[b], lens[a ^ b], lens[a ^ mul[(2, b)]]) for a in range(4) for b in range(4)]
+
+
+OA16 = _oa16()
+assert all(len({(r[i], r[j]) for r in OA16}) == 16 for i in range(4) for j in range(i + 1, 4))
+for _l in OA16:
+    if _l not in COMBOS:
+        _segment_pack_layout(_l, thorough_only=True)
+_segment_pack_direct((3, 3, 3, 3), thorough_only=True)
+_segment_pack_direct((7, 0, 3, 7), thorough_only=True)
+
+
+@contract('C13', 'traj.segment.pack.shapes', SEG_FUNCS,
+          clause=TRJ_CLAUSE + ' (every one of the 256 shapes of a segment - 0, 1, 3 or 7 control points on each of x, y, z, yaw - with '
+                              'concrete control points spread over the 16-bit range: exactly the bytes of the firmware layout <type byte '
+                              'with two bits per axis, duration in ms, control points as little-endian int16 in the order x, y, z, yaw>)',
+          bounded='concrete control points (symbolic ones: traj.segment.pack.layout.*); all 256 shapes', max_paths=300)
+def traj_segment_shapes(c):
+    lens = c.choice('shape', [(a, b, d, e) for a in (0, 1, 3, 7) for b in (0, 1, 3, 7) for d in (0, 1, 3, 7) for e in (0, 1, 3, 7)])
+    vals = [[((-1) ** i) * (0.0007 + 4.681 * i + 0.3 * ax) for i in range(n)] for ax, n in enumerate(lens)]
+    vals[3] = [v / 10.0 for v in vals[3]]
+    dur = 0.001 * (1 + sum(lens) * 2340)
+    els, img = _concrete_traj(c, [(0.0, 0.0, 0.0, 0.0), (dur, vals[0], vals[1], vals[2], vals[3])])
+    c.let('IMG', img[8:])
+    c.call((els[1], 'pack'))
+    c.ensure('exact-bytes', "raised is None and typename(result) == 'bytearray' and bytes(result) == IMG")
+
+
+# ------------------------------------------------------------------------- quaternions: second use, symbolic magnitudes, random (native)
+@contract('C13', 'quat.decompress.twice', [ENC + ':decompress_quaternion'],
+          clause='decompressing yields the same rotation - on every use: the array returned for one word still holds that word\'s '
+                 'quaternion after another word has been decompressed (each call returns its own array), and the second result is the '
+                 'second word\'s quaternion',
+          bounded='two concrete words with different indices of the largest component, signs and magnitudes', float_mode='R')
+def quat_decompress_twice(c):
+    c.let('SQRT2', math.sqrt(2.0))
+    c.let('TOL', 1e-9)
+    w1 = (1 << 30) | (1 << 29) | (100 << 20) | (0 << 19) | (200 << 10) | (1 << 9) | 300
+    w2 = (3 << 30) | (0 << 29) | (361 << 20) | (1 << 19) | (5 << 10) | (0 << 9) | 17
+    first = c.call(ENC + ':decompress_quaternion', w1)
+    c.let('first', first)
+    c.ensure('first-no-exception', 'raised is None and len(first) == 4')
+    c.call(ENC + ':decompress_quaternion', w2)
+    c.ensure('second-no-exception', 'raised is None and len(result) == 4')
+    c.ensure('own-array-per-call', 'not is_same(first, result)')
+    for i, m in ((0, -100), (2, 200), (3, -300)):
+        c.ensure('first-result-component-%d-still-its-own' % i, 'abs(first[%d] * 511 * SQRT2 - (%d)) <= TOL' % (i, m))
+    c.ensure('first-result-largest-still-its-own', 'first[1] >= 0 and abs(first[0] ** 2 + first[1] ** 2 + first[2] ** 2 + first[3] ** 2 - 1) <= TOL')
+    for i, m in ((0, 361), (1, -5), (2, 17)):
+        c.ensure('second-result-component-%d' % i, 'abs(result[%d] * 511 * SQRT2 - (%d)) <= TOL' % (i, m))
+    c.ensure('second-result-largest', 'result[3] >= 0 and abs(result[0] ** 2 + result[1] ** 2 + result[2] ** 2 + result[3] ** 2 - 1) <= TOL')
+
+
+def _lemma(c, expr):
+    """prove-then-use: `expr` follows from the path condition (proved here by the solver, otherwise the contract aborts and is
+    never green); it is then added to the path condition so that later non-linear queries need not rediscover it"""
+    if c.backend != 'sym':
+        return
+    t = c.I.spec_bool(c.I.eval_spec(expr, c.frame))
+    if not c.path.must(t):
+        raise RuntimeError('lemma not proved: ' + expr)
+    c.path.assume(t)
+
+
+def _quat_magnitudes(big):
+    @contract('C13', 'quat.decompress.magnitudes.%d' % big, [ENC + ':decompress_quaternion'],
+              clause='decompressing a 32-bit word with index %d of the largest component, ANY sign bits and ANY three 9-bit magnitudes '
+                     'that describe a unit quaternion (sum of squares <= 2 * 511**2): the other components are, in index order, sign * '
+                     'magnitude / 511 / sqrt(2), the component named by the top two bits is non-negative and completes the unit norm' % big,
+              float_mode='R', max_paths=100, ob_timeout_ms=60000)
+    def k(c):
+        m = [c.int('m%d' % i, 0, 511) for i in range(3)]
+        s = [c.int('s%d' % i, 0, 1) for i in range(3)]
+        c.require('m0 * m0 + m1 * m1 + m2 * m2 <= 2 * 511 * 511')
+        c.let('SQRT2', math.sqrt(2.0))
+        c.let('TOL', 1e-9)
+        c.snapshot('word', '%d + s0 * 2 ** 29 + m0 * 2 ** 20 + s1 * 2 ** 19 + m1 * 2 ** 10 + s2 * 2 ** 9 + m2' % (big << 30))
+        # the fields of the word, in the form in which the code extracts them (proved from the line above, then used)
+        for fact in ('word // 2 ** 30 == %d' % big, 'word % 512 == m2', '(word // 512) % 2 == s2', '(word // 1024) % 512 == m1',
+                     '((word // 1024) // 512) % 2 == s1', '((word // 1024) // 1024) % 512 == m0', '(((word // 1024) // 1024) // 512) % 2 == s0'):
+            _lemma(c, fact)
+        c.call(ENC + ':decompress_quaternion', c.get('word'))
+        c.ensure('no-exception', 'raised is None and len(result) == 4')
+        if c.get('raised') is not None:
+            return
+        for pos, i in enumerate([i for i in range(4) if i != big]):
+            c.ensure('component-%d-is-signed-magnitude-over-511-sqrt2' % i,
+                     'abs(result[%d] * 511 * SQRT2 - (1 - 2 * s%d) * m%d) <= TOL' % (i, pos, pos))
+        c.ensure('largest-component-completes-the-unit-quaternion',
+                 'result[%d] >= 0 and abs(result[0] ** 2 + result[1] ** 2 + result[2] ** 2 + result[3] ** 2 - 1) <= TOL' % big)
+    return k
+
+
+for _b in range(4):
+    _quat_magnitudes(_b)
+
+
+# (e) thorough tier: the whole lattice {-2..2}**4 of directions (every sign / zero / tie pattern with two magnitudes) and more
+# seeded random directions, each with a symbolic scale
+LATTICE2 = [d for d in __import__('itertools').product((-2, -1, 0, 1, 2), repeat=4) if any(d) and d not in GRID]
+for _i in range(0, len(LATTICE2), 68):
+    QUAT_SETS['lattice2_%d' % (_i // 68)] = LATTICE2[_i:_i + 68]
+    _quat_grid('lattice2_%d' % (_i // 68), LATTICE2[_i:_i + 68], thorough_only=True)
+for _i, (_seed, _lim) in enumerate(((7, 3), (77, 30), (777, 300), (7777, 10000))):
+    QUAT_SETS['random_t%d' % _i] = _dirs(_seed, 60, _lim)
+    _quat_grid('random_t%d' % _i, QUAT_SETS['random_t%d' % _i], thorough_only=True)
+
+
+def _quat_sampled(name, elo, ehi, samples, note, **more):
+    @contract('C13', name, [ENC + ':compress_quaternion', ENC + ':decompress_quaternion'],
+              clause='compressing and decompressing any non-zero quaternion yields the same rotation with every component within two '
+                     'quantisation steps and the result always fits 32 bits [the REAL numpy code in binary64 on seeded boundary / random '
+                     'quaternions: index of the first largest component, relative sign bits, each magnitude the nearest of 0..511, and the '
+                     'round trip]' + note,
+              bounded_only=True, samples=samples,
+              bounded='general (not grid) directions are outside the solver\'s reach (module docstring): sampled natively, never counted as '
+                      'proved; q = (n0, n1, n2, n3) * 2**e with integers |n| <= 10000 (boundary values give zeros and ties for the largest '
+                      'component) and e in %d..%d (unnormalised inputs)' % (elo, ehi), **more)
+    def quat_sampled(c):
+        """native only (the symbolic back end never runs a bounded_only contract)"""
+        from fractions import Fraction
+        n = [c.int('n%d' % i, -10000, 10000) for i in range(4)]
+        e = c.int('e', elo, ehi)
+        c.require('any(v != 0 for v in (n0, n1, n2, n3))')
+        q = [v * 2.0 ** e for v in n]           # exact in binary64
+        c.let('q', q)
+        kind = c.choice('kind', ['list', 'tuple', 'ndarray'])       # "an array of floats": the containers callers use
+        c.call(ENC + ':compress_quaternion', {'list': list, 'tuple': tuple, 'ndarray': __import__('numpy').array}[kind](q))
+        c.ensure('no-exception', 'raised is None')
+        if c.get('raised') is not None:
+            return
+        c.ensure('fits-32-bits', "isinstance(result, int) and not isinstance(result, bool) and 0 <= result < 2 ** 32")
+        word = int(c.get('result'))
+        N = sum(v * v for v in n)
+        big = max(range(4), key=lambda i: (abs(n[i]), -i))
+        c.let('BIG', big)
+        c.ensure('index-of-the-first-largest-component', 'result >> 30 == BIG')
+        w = word
+        others = [i for i in range(4) if i != big]
+        for i in reversed(others):
+            mag, neg = w & 511, (w >> 9) & 1
+            w >>= 10
+            # exact: mag is the nearest integer to 511 * sqrt(2) * |n_i| / sqrt(N)  <=>  (2 mag - 1)**2 N <= 8 * 511**2 n_i**2 <= (2 mag + 1)**2 N
+            # (a relative slack of 1e-9 for the binary64 evaluation exactly at a rounding boundary)
+            x2 = Fraction(8 * 511 * 511 * n[i] * n[i], N)
+            lo, hi = Fraction(max(2 * mag - 1, 0) ** 2), Fraction((2 * mag + 1) ** 2)
+            c.let('OK', bool(lo * (1 - Fraction(1, 10 ** 9)) <= x2 <= hi * (1 + Fraction(1, 10 ** 9))) and 0 <= mag <= 511)
+            c.ensure('magnitude-%d-is-the-nearest-level' % i, 'OK')
+            c.let('OK', n[i] == 0 or neg == int((n[i] < 0) != (n[big] < 0)))
+            c.ensure('sign-bit-%d-relative-to-the-largest' % i, 'OK')
+        c.let('OK', w == big)
+        c.ensure('nothing-else-in-the-word', 'OK')
+        sgn = -1.0 if n[big] < 0 else 1.0
+        c.let('U', [sgn * v / math.sqrt(N) for v in n])
+        c.let('TWO_STEPS', 2 * STEP)
+        c.call(ENC + ':decompress_quaternion', word)
+        c.ensure('decompress-no-exception', 'raised is None and len(result) == 4')
+        if c.get('raised') is None:
+            c.ensure('round-trip-every-component-within-two-steps', 'all(abs(float(result[i]) - U[i]) <= TWO_STEPS for i in range(4))')
+    return quat_sampled
+
+
+_quat_sampled('quat.roundtrip.sampled', -40, 40, {'quick': 400, 'thorough': 20000}, '')
+# FINDING (unchanged tree; reported): the norm is computed as sqrt(sum of squares) without scaling, so for |q| below about 1e-154 the
+# squares underflow (division by zero: OverflowError / ValueError, e.g. [1e-170, 1e-170, 0, 0]) and above about 1e154 they overflow
+# (every component becomes 0: [1e200, 1e200, 0, 0] compresses to the word 0, which decompresses to [1, 0, 0, 0] - another rotation).
+# Kept under thorough_only so that the quick tier stays green.
+_quat_sampled('quat.roundtrip.sampled.any-scale', -1074, 1000, {'quick': 400, 'thorough': 3000},
+              ' - at EVERY binary64 scale, from subnormal to close to the largest finite number', thorough_only=True)
+
+
+# ------------------------------------------------------------------------- localization: every wrong length a CRTP packet can have
+@contract('C13', 'loc.range_report.bad_length.all', LOC_FUNCS,
+          clause='a range report whose payload is not a whole number of <id, distance> records delivers nothing: every such length that '
+                 'fits a CRTP packet (1..29 bytes after the type byte, not a multiple of 5), any content')
+def range_bad_length_all(c):
+    n = c.choice('n', [k for k in range(1, 30) if k % 5])
+    c.bytes('payload', n)
+    loc, pk = _localization(c, "pack('<B', 0) + payload")
+    c.call((loc, '_incoming'), pk)
+    c.ensure('no-exception', 'raised is None')
+    c.ensure('nothing-delivered', 'len(trace) == 0')
+
+
+@contract('C13', 'loc.lh_angle_stream.bad_length.all', LOC_FUNCS + [LOC + ':Localization._decode_lh_angle'],
+          clause='an angle-stream packet of the wrong size is not decoded into angles: struct.error and nothing delivered, for every '
+                 'length other than 21 that fits a CRTP packet (0..29 bytes after the type byte), any content')
+def lh_angle_bad_all(c):
+    _fp16_by_contract(c)
+    n = c.choice('n', [k for k in range(30) if k != 21])
+    c.bytes('payload', n)
+    loc, pk = _localization(c, "pack('<B', 10) + payload")
+    c.call((loc, '_incoming'), pk)
+    c.ensure('struct-error', "raised == 'struct.error'")
+    c.ensure('nothing-delivered', 'len(trace) == 0')
+
+
+# ------------------------------------------------------------------------- LED ring / timings: what the defaults stand for
+@contract('C13', 'led.write_data.defaults', LED_FUNCS,
+          clause=LED_CLAUSE + ' (an LED that was only given a colour is at full intensity: a new ring is black - 24 zero bytes - and after '
+                              'set(255, 255, 255) on every LED, without an intensity, every word is 0xffff; set(r, g, b) with an explicit '
+                              'intensity of 100 gives the same image as without)',
+          bounded='concrete colours (white on every LED; one mixed colour)')
+def led_defaults(c):
+    mh = c.ext('mh')
+    mem = c.new(LED + ':LEDDriverMemory', 4, 0x10, 24, mh)
+    c.let('mem', mem)
+    c.reset_trace()
+    c.call((mem, 'write_data'), c.ext('cb'))
+    if not _led_written(c, mem):
+        return
+    c.ensure('new-ring-is-black', 'bytes(data) == bytes(24)')
+    for i in range(12):
+        c.call((c.snapshot('led', 'mem.leds[%d]' % i), 'set'), 255, 255, 255)
+    c.reset_trace()
+    c.call((mem, 'write_data'), c.ext('cb'))
+    if not _led_written(c, mem):
+        return
+    c.ensure('white-without-an-intensity-is-full-scale', "bytes(data) == b'\\xff' * 24")
+    c.call((c.snapshot('led', 'mem.leds[4]'), 'set'), 100, 150, 200)
+    c.reset_trace()
+    c.call((mem, 'write_data'), c.ext('cb'))
+    if not _led_written(c, mem):
+        return
+    c.snapshot('plain', 'bytes(data)')
+    c.call((c.snapshot('led', 'mem.leds[4]'), 'set'), 100, 150, 200, 100)
+    c.reset_trace()
+    c.call((mem, 'write_data'), c.ext('cb'))
+    if not _led_written(c, mem):
+        return
+    c.let('MIXED', _rgb565([(255, 255, 255, 100)] * 4 + [(100, 150, 200, 100)] + [(255, 255, 255, 100)] * 7))
+    c.ensure('explicit-full-intensity-is-the-same-image', 'bytes(data) == plain and plain == MIXED')
+
+
+@contract('C13', 'led.timings.defaults', [LEDT + ':LEDTimingsDriverMemory.__init__', LEDT + ':LEDTimingsDriverMemory.add',
+                                          LEDT + ':LEDTimingsDriverMemory.write_data'],
+          clause=LED_CLAUSE + ' (a timing entry that was only given a time and a colour has no LED selection, no fade and no rotation: its '
+                              'record is <time, RGB565 high, RGB565 low, 0>, all 256 levels per channel)')
+def led_timings_defaults(c):
+    mh = c.ext('mh')
+    mem = c.new(LEDT + ':LEDTimingsDriverMemory', 5, 0x17, 2000, mh)
+    c.let('mem', mem)
+    rgb = c.dict([('r', c.int('r0', 0, 255)), ('g', c.int('g0', 0, 255)), ('b', c.int('b0', 0, 255))])
+    c.call((mem, 'add'), c.int('t0', 1, 255), rgb)
+    c.let('leds0', 0), c.let('fade0', False), c.let('rot0', 0)
+    c.reset_trace()
+    c.call((mem, 'write_data'), c.ext('cb'))
+    if _timing_written(c, mem):
+        _timing_image(c, '', [0])
+
+
+# ------------------------------------------------------------------------- segment type bits for an element of ANY length
+@contract('C13', 'traj.segment.encode_type.any-length', [TRJ + ':CompressedSegment._encode_type', TRJ + ':CompressedSegment._validate',
+                                                         TRJ + ':CompressedSegment.__init__'],
+          clause='segment type bits: an element of 0 / 1 / 3 / 7 control points is announced as 0 / 1 / 2 / 3; an element of ANY other '
+                 'length (symbolic, unbounded) on any axis is refused by the constructor')
+def traj_encode_type_any(c):
+    el = c.view('el', kind='list')
+    seg = c.new(TRJ + ':CompressedSegment', 1.0, [], [], [], [])
+    which = c.choice('axis', [0, 1, 2, 3])
+    args = [[], [], [], []]
+    args[which] = el
+    c.call(TRJ + ':CompressedSegment', 1.0, *args)
+    c.ensure('constructor-accepts-exactly-0-1-3-7', "iff(raised is None, len(el) in (0, 1, 3, 7)) and raised in (None, 'Exception')")
+    if c.get('raised') is None:
+        n = c.concretize('len(el)')
+        c.call((seg, '_encode_type'), el)
+        c.ensure('type-code', 'raised is None and result == %d' % {0: 0, 1: 1, 3: 2, 7: 3}.get(n, -1))
